@@ -143,7 +143,7 @@ inductive Verdict where
 def evalEnv (env : PEnv) (orc : EvalOracles) (path : Bytes) : Env :=
   { rx := orc.rx, command := fun _ => -1, isDir := fun _ => false, now := env.now,
     strptime := orc.strptime, zoneName := orc.zoneName, fileTime := fun _ => none,
-    dryrun := env.dryrun, path := path }
+    timeFormat := orc.timeFormat, dryrun := env.dryrun, path := path }
 
 /-- `matches_interpolate` on the result `ev` of `expr_eval`, as `main` calls it. -/
 def verdictOfEv (env : PEnv) (orc : EvalOracles) (m : Msg) (parts : List Msg) (path : Bytes) : Tri × St → Verdict
@@ -166,17 +166,17 @@ def stdinVerdict (env : PEnv) (orc : EvalOracles) (expr : Expr) (input path : By
 conditions) with `as`. -/
 def stdinVerdictA (env : PEnv) (orc : EvalOracles) (expr : Expr) (input path : Bytes) (fl : MFlags) (as : List SysAns) : Verdict :=
   verdictOfEv env orc (parseMessage input) ((getAttachments (parseMessage input)).getD []) path
-    (evalR (evalEnv env orc path) orc.timeFormat expr (parseMessage input) fl as).1
+    (evalR (evalEnv env orc path) expr (parseMessage input) fl as).1
 
 /-- For a rule tree that asks nothing the answers are irrelevant. -/
 theorem stdinVerdictA_asksFree (env : PEnv) (orc : EvalOracles) (expr : Expr) (h : asksFree expr = true) (input path : Bytes)
     (fl : MFlags) (as : List SysAns) :
     stdinVerdictA env orc expr input path fl as = stdinVerdict env orc expr input path fl := by
   unfold stdinVerdictA stdinVerdict verdictOf
-  have h1 := evalT_asksFree (evalEnv env orc path) orc.timeFormat (parseMessage input) expr h 0 (parseMessage input)
+  have h1 := evalT_asksFree (evalEnv env orc path) (parseMessage input) expr h 0 (parseMessage input)
     { ml := [], flags := fl }
-  have h2 : evalR (evalEnv env orc path) orc.timeFormat expr (parseMessage input) fl as =
-      ((evalT (noSys (evalEnv env orc path)) orc.timeFormat (parseMessage input) expr 0 (parseMessage input)
+  have h2 : evalR (evalEnv env orc path) expr (parseMessage input) fl as =
+      ((evalT (noSys (evalEnv env orc path)) (parseMessage input) expr 0 (parseMessage input)
         { ml := [], flags := fl }).run as) := rfl
   rw [h2, h1]
   rfl
